@@ -1,7 +1,203 @@
-/- Driver glue for C19: case lines `c19.<sub> <args…> | <impl…>` (stub until the property is built) -/
-import FileD.Prelude.Tok
-namespace FileD.DrvC19
+/-
+  Driver glue for C19. Case lines (all byte strings hex, `-` = empty):
 
-def handle (_cmd : String) (_args _impl : List String) : Option (String × String) := none
+    event   := <kind> <src> <enc> <nroute> <route…>          kind 0 regular, 1 child, 2 child-parent
+    batches := <nb> (<nev> event…)…          script := <ns> <status…>
+
+    c19.file   <lim> batches                                          | <nb> <written>…
+    c19.gelf   <lim> <failfirst> <host> <short> <defshort> <full> <ts> <level> batches   | <nb> <written>…
+    c19.kafka  <lim> <bsz> <deftopic> <usefield> <topicfield> batches | <nb> (<nrec> (<topic> <value>)…)…
+    c19.http   <raw> <rawfield> <split> <lim> script batches          | A
+    c19.es     <split> <lim> <op> <format> <time> <nvals> <val…> script batches   | A
+    c19.splunk <lim> <ncf> (<from> <to> <keyq>)… script batches       | A
+    c19.loki   <lim> <labelsjson> <nlab> (<k> <v>)… <tsfield> <msgfield> script batches   | A
+      A := <nb> (<nattempts> (<ok|err> <nreq> (<status> <body>)…)…)…
+
+  `src` (the JSON text the event is decoded from) and the field-name configuration are used by
+  the harness only; the model works on the oracle values `enc` / `route`.
+-/
+import FileD.Prelude.Tok
+import FileD.Model.Payload
+import FileD.Spec.C19
+namespace FileD.DrvC19
+open FileD Tok Payload SpecC19
+
+abbrev P (α : Type) := List String → Option (α × List String)
+
+def pNat : P Nat | t :: ts => (nat? t).map (·, ts) | [] => none
+def pBool : P Bool | t :: ts => (bool? t).map (·, ts) | [] => none
+def pBytes : P Bytes | t :: ts => (bytes? t).map (·, ts) | [] => none
+
+def pCount {α} (p : P α) : Nat → P (List α)
+  | 0, ts => some ([], ts)
+  | n + 1, ts => do
+    let (x, r) ← p ts
+    let (xs, r') ← pCount p n r
+    pure (x :: xs, r')
+
+def pList {α} (p : P α) : P (List α) := fun ts => do
+  let (n, r) ← pNat ts
+  pCount p n r
+
+def pEv : P Ev := fun ts => do
+  let (k, r) ← pNat ts
+  let (_src, r) ← pBytes r
+  let (enc, r) ← pBytes r
+  let (route, r) ← pList pBytes r
+  pure (⟨k, enc, route⟩, r)
+
+def pBatches : P (List (List Ev)) := pList (pList pEv)
+
+/-- observed attempts: `<ok|err> <nreq> (<status> <body>)…` -/
+def pReq : P (Nat × Bytes) := fun ts => do
+  let (s, r) ← pNat ts
+  let (b, r) ← pBytes r
+  pure ((s, b), r)
+
+def pAttempt : P (Bool × List (Nat × Bytes)) := fun ts =>
+  match ts with
+  | v :: r => do
+    let ok ← if v = "ok" then some true else if v = "err" then some false else none
+    let (reqs, r) ← pList pReq r
+    pure ((ok, reqs), r)
+  | [] => none
+
+def pObsHttp : P (List (List (Bool × List (Nat × Bytes)))) := pList (pList pAttempt)
+
+def encAttempt (a : Attempt) : String :=
+  unwords ((if a.ok then "ok" else "err") :: toString a.reqs.length ::
+    a.reqs.flatMap (fun q => [toString q.status, Hex.enc q.body]))
+
+def encHttp (r : GoM (List (List Attempt))) : String :=
+  match r with
+  | .error p => panicTok p
+  | .ok bs => unwords (toString bs.length :: bs.map (fun ats => unwords (toString ats.length :: ats.map encAttempt)))
+
+def encWritten (l : List Bytes) : String := unwords (toString l.length :: l.map Hex.enc)
+
+/-- property verdict for the http-like sinks -/
+def verdictHttp {F : Type} (split : Bool) (okStatus : Nat → Bool) (unframe : Bytes → Option (List F))
+    (matchEv : Ev → F → Bool) (batches : List (List Ev)) (impl : List String) : String :=
+  match impl with
+  | t :: _ => if t.startsWith "panic" then "fail" else
+    match pObsHttp impl with
+    | some (obs, []) =>
+      if obs.length ≠ batches.length then "fail" else
+      let okAll := (batches.zip obs).all (fun (b, ats) =>
+        -- the batch is retried until an attempt is committed; every attempt is judged
+        ats.all (fun (ok, reqs) =>
+          holdsAttempt split okStatus matchEv b ok (reqs.map (fun (s, body) => ⟨s, unframe body⟩))))
+      if okAll then "ok" else "fail"
+    | _ => "bad-impl"
+  | [] => "bad-impl"
+
+def verdictWritten (sep : UInt8) (doc : Ev → Bytes) (batches : List (List Ev)) (impl : List String) : String :=
+  match impl with
+  | t :: _ => if t.startsWith "panic" then "fail" else
+    match pList pBytes impl with
+    | some (obs, []) =>
+      if obs.length ≠ batches.length then "fail" else
+      if (batches.zip obs).all (fun (b, o) => holdsSep sep doc b o) then "ok" else "fail"
+    | _ => "bad-impl"
+  | [] => "bad-impl"
+
+def pRec : P (Bytes × Bytes) := fun ts => do
+  let (t, r) ← pBytes ts
+  let (v, r) ← pBytes r
+  pure ((t, v), r)
+
+def encKafka (r : GoM (List (List (Bytes × Bytes)))) : String :=
+  match r with
+  | .error p => panicTok p
+  | .ok bs => unwords (toString bs.length ::
+      bs.map (fun rs => unwords (toString rs.length :: rs.flatMap (fun (t, v) => [Hex.enc t, Hex.enc v]))))
+
+def singleton (x : Option Bytes) : Option (List Bytes) := x.map ([·])
+
+def handle (cmd : String) (args impl : List String) : Option (String × String) :=
+  match cmd with
+  | "c19.file" => do
+    let (lim, r) ← pNat args
+    let (bs, r) ← pBatches r
+    if r ≠ [] then none
+    pure (encWritten (fileRun lim none bs), verdictWritten NL (·.enc) bs impl)
+  | "c19.gelf" => do
+    let (lim, r) ← pNat args
+    let (_failFirst, r) ← pBool r
+    let (_, r) ← pCount pBytes 6 r
+    let (bs, r) ← pBatches r
+    if r ≠ [] then none
+    pure (encWritten (gelfRun lim none bs), verdictWritten 0 gelfDoc bs impl)
+  | "c19.kafka" => do
+    let (lim, r) ← pNat args
+    let (bsz, r) ← pNat r
+    let (deft, r) ← pBytes r
+    let (usef, r) ← pBool r
+    let (_tf, r) ← pBytes r
+    let (bs, r) ← pBatches r
+    if r ≠ [] then none
+    let m := kafkaRun growDouble ⟨bsz, deft, usef⟩ lim bs
+    let p := match impl with
+      | t :: _ =>
+        if t.startsWith "panic" then
+          -- a batch larger than batch_size cannot come out of the batcher: not a property failure
+          (if bs.any (fun b => (deliverable b).length > bsz) then "ok" else "fail")
+        else match pList (pList pRec) impl with
+          | some (obs, []) =>
+            if obs.length = bs.length && (bs.zip obs).all (fun (b, o) => holdsKafka b o) then "ok" else "fail"
+          | _ => "bad-impl"
+      | [] => "bad-impl"
+    pure (encKafka m, p)
+  | "c19.http" => do
+    let (raw, r) ← pBool args
+    let (_rf, r) ← pBytes r
+    let (split, r) ← pBool r
+    let (lim, r) ← pNat r
+    let (sc, r) ← pList pNat r
+    let (bs, r) ← pBatches r
+    if r ≠ [] then none
+    let m := httpLikeRun (httpOut raw split lim) none sc bs
+    let p := verdictHttp split isOkStatus (unframeSep NL) (if raw then rawOk else frameOk (·.enc)) bs impl
+    pure (encHttp m, p)
+  | "c19.es" => do
+    let (split, r) ← pBool args
+    let (lim, r) ← pNat r
+    let (op, r) ← pBytes r
+    let (fmt, r) ← pBytes r
+    let (tm, r) ← pBytes r
+    let (vals, r) ← pList pBytes r
+    let (sc, r) ← pList pNat r
+    let (bs, r) ← pBatches r
+    if r ≠ [] then none
+    let c : EsCfg := ⟨op, fmt, tm, if vals = [] then [atTime] else vals⟩
+    let m := httpLikeRun (esOut c split lim) none sc bs
+    let p := verdictHttp split isOkStatus unframeES (esEventOk op) bs impl
+    pure (encHttp m, p)
+  | "c19.splunk" => do
+    let (lim, r) ← pNat args
+    let (cfs, r) ← pList (fun ts => do
+      let (_f, r) ← pBytes ts
+      let (_t, r) ← pBytes r
+      let (kq, r) ← pBytes r
+      pure ((⟨kq⟩ : CopyField), r)) r
+    let (sc, r) ← pList pNat r
+    let (bs, r) ← pBatches r
+    if r ≠ [] then none
+    let m := httpLikeRun (splunkOut cfs lim) none sc bs
+    let p := verdictHttp false isOkStatus (fun b => unframeConcat (b.length + 1) b) (frameOk (splunkFrame cfs)) bs impl
+    pure (encHttp m, p)
+  | "c19.loki" => do
+    let (_lim, r) ← pNat args
+    let (labels, r) ← pBytes r
+    let (_, r) ← pList (pCount pBytes 2) r
+    let (_, r) ← pCount pBytes 2 r
+    let (sc, r) ← pList pNat r
+    let (bs, r) ← pBatches r
+    if r ≠ [] then none
+    let m := httpLikeRun (lokiOut labels) none sc bs
+    let entryOf (e : Ev) : Bytes := match lokiEv e with | some l => lokiEntry l | none => []
+    let p := verdictHttp false (· = 204) (unframeLoki labels) (frameOk entryOf) bs impl
+    pure (encHttp m, p)
+  | _ => none
 
 end FileD.DrvC19
